@@ -233,9 +233,28 @@ def sim_buffers(primary):
 
 
 def model_state(cfg, history):
+    """Automaton state after a history, folded from the constructor."""
     ctor = history[0]
     s0 = DM.initial_state(ctor[1], ctor[2], cfg["default0"])
     return DM.fold(s0, [_model_op(o) for o in history[1:]], sim_buffers(cfg["primary"]))
+
+
+OBSERVED = {}     # (cfg key, history key) -> observed abstract state (filled as worlds are observed)
+
+
+def _ckey(cfg):
+    return (cfg["primary"], cfg["derivative"], cfg["default0"])
+
+
+def before_state(cfg, hist):
+    """Automaton state *before* the last operation = the state observed on the real objects after
+    ``hist`` (every prefix was itself checked as a transition, so a defect is reported where it
+    happens and does not echo through all the histories that extend it)."""
+    key = (_ckey(cfg), _hkey(hist))
+    if key not in OBSERVED:
+        OBSERVED[key] = World(cfg, hist).observe()
+    o = OBSERVED[key]
+    return DM.State(o[0], o[1], o[2], o[3])
 
 
 # ---------------------------------------------------------------------------------
@@ -253,11 +272,12 @@ def check_transition(ctx, cfg, hist, op, after, dead):
     full = hist + [op]
     block = {"primary": cfg["primary"], "derivative": cfg["derivative"], "default0": cfg["default0"],
              "history": full}
-    before_m = model_state(cfg, hist)
+    before_m = before_state(cfg, hist)
     after_m, expect_exc = DM.step(before_m, _model_op(op), sim_buffers(cfg["primary"]))
     after.build()
     exc = after.events[-1]
     obs = after.observe()
+    OBSERVED[(_ckey(cfg), _hkey(full))] = obs
     exp = after_m.key()
     decl_cls = "undeclared" if before_m.declared is None else "declared"
     if expect_exc is not None:
@@ -352,13 +372,13 @@ def check_state(ctx, cfg, history, world, level):
     from pfhedge.features import get_feature
     from pfhedge.nn import Hedger
     world.build()
-    m = model_state(cfg, history)
+    m = before_state(cfg, history)       # the observed state itself
     sims = [d for n, d in m.buffers if n in sim_buffers(cfg["primary"])]
     if not sims or world.events and any(e is not None and not isinstance(e, TypeError) for e in world.events):
         return 0
-    obs = world.observe()
-    if obs != m.key():
-        return 0                     # the transition check has reported it; dtype expectations are void
+    if len(set(sims)) != 1 or sims[0] not in DTYPES or m.sim_dtype() not in DTYPES or (
+            m.declared is not None and sims[0] != m.declared):
+        return 0                     # not a state of the contract (reported by the transition check)
     D = DTYPES[sims[0]]             # dtype of the simulated series
     S = DTYPES[m.sim_dtype()]       # dtype a simulation started now is produced in
     block = {"primary": cfg["primary"], "derivative": cfg["derivative"], "default0": cfg["default0"],
@@ -457,6 +477,8 @@ CTORS = [["ctor", None, None], ["ctor", "float64", None], ["ctor", "float16", No
 def dtype_bfs(ctx, block):
     cfg = {"primary": block["primary"], "derivative": block["derivative"], "default0": block["default0"]}
     ops = operations(block["ops"])
+    if block.get("extra_op") and block["extra_op"] not in ops:
+        ops = ops + [block["extra_op"]]
     dead = set()
     queried = set()
     n_queries = [0]
@@ -474,7 +496,7 @@ def dtype_bfs(ctx, block):
 
     def on_transition(hist, op, before, after):
         check_transition(ctx, cfg, hist, op, after, dead)
-        ctx.tick(1, nontrivial=1 if model_state(cfg, hist).key() != model_state(cfg, hist + [op]).key() else 0)
+        ctx.tick(1, nontrivial=1 if before_state(cfg, hist).key() != before_state(cfg, hist + [op]).key() else 0)
 
     def on_state(h, w):
         if _hkey(h) in dead:
@@ -518,6 +540,12 @@ def dtype_history(ctx, block):
         ctx.tick(1, nontrivial=1)
         if not ok:
             return
+    # end-to-end: the state reached equals the automaton folded over the whole history
+    obs, exp = World(cfg, h).observe(), model_state(cfg, h).key()
+    if obs != exp:
+        ctx.violation(cfg["primary"] + ".history", "end_state_differs_from_automaton",
+                      f"after {h} the instrument is {obs}, the automaton gives {exp}", observed=repr(obs),
+                      expected=repr(exp), block=block)
     q = check_state(ctx, cfg, h, World(cfg, h), block.get("queries", "full"))
     ctx.tick(q)
     ctx.add("traces_validated_against_impl", 1)
@@ -556,9 +584,13 @@ def run(ctx):
     if ctx.quick:
         # every primary class to a fixpoint with one derivative class each (all six classes covered),
         # core operation alphabet, queries once per (declared, buffers, default)
+        core = operations("core")
+        extra = ctx.extra_symbol("operation", [o for o in operations("full") if o not in core])
+        ctx.alphabet("seed-dependent extra operation", _opname(extra))
         for i, prim in enumerate(primaries):
             blocks.append({"primary": prim, "derivative": DERIVATIVES[i % len(DERIVATIVES)], "default0": "float32",
-                           "ctors": CTORS[:3], "ops": "core", "queries": "core", "queries_per": "signature"})
+                           "ctors": CTORS[:3], "ops": "core", "extra_op": extra, "queries": "core",
+                           "queries_per": "signature"})
         for b in blocks:
             ctx.run("dtype_bfs", b)
     else:
